@@ -27,7 +27,7 @@ open Zarrs Zarrs.Proto Zarrs.Codec Zarrs.Partial
 inductive Step where
   | s (r : Subset) (xs : List Elem)
   | p (ws : List RWrite)
-  | pp (calls : List (List RWrite))      -- ONE partial encoder object, several calls (observation only)
+  | pp (calls : List (Option (List RWrite)))  -- ONE partial encoder object, several calls (`none` = its `erase()`)
   | f (xs : List Elem)
   | e
 
@@ -44,7 +44,8 @@ def parseStep (s : String) : Option Step :=
   else if s.startsWith "f:" then (DriverC01.parseElems (s.drop 2).toString).map .f
   else if s.startsWith "s:" then (parseWrite (s.drop 2).toString).map (fun w => .s w.1 w.2)
   else if s.startsWith "p:" then (parseWrites (s.drop 2).toString).map .p
-  else if s.startsWith "P:" then (((s.drop 2).toString.splitOn "/").mapM parseWrites).map .pp
+  else if s.startsWith "P:" then (((s.drop 2).toString.splitOn "/").mapM (fun c =>
+      if c == "E" then some none else (parseWrites c).map some)).map .pp
   else none
 
 /-- chain, chunk shape, fill value, element size; zero sharding levels allowed -/
@@ -200,9 +201,12 @@ def judgeStep (c : ChainS) (ssh : Shape) (fill : Elem) (es : Nat) (st : RState) 
   | .s r xs => judgeS c ssh fill es st r xs o raw
   | .p ws => judgePE c ssh fill st ws o raw
   | .pp calls =>
-    -- prediction: as if every call had its own partial encoder
-    match calls.foldl (fun (acc : Option (Option Bytes × List Elem)) ws => acc.bind (fun a =>
-        (c.partialEncode ssh fill a.1 ws).map (fun r => (r, ws.foldl (fun e w => updateRuns ssh w.1 e w.2) a.2))))
+    -- prediction: as if every call had its own partial encoder (a handle that is kept must behave like a fresh one: the
+    -- shard index it caches is the state the property names)
+    match calls.foldl (fun (acc : Option (Option Bytes × List Elem)) call => acc.bind (fun a =>
+        match call with
+        | none => some (none, List.replicate (prod ssh) fill)
+        | some ws => (c.partialEncode ssh fill a.1 ws).map (fun r => (r, ws.foldl (fun e w => updateRuns ssh w.1 e w.2) a.2))))
         (some (st.prev, st.expected)) with
     | none => if o == "err" then .ok st else .error "model: err"
     | some (_, new) =>
